@@ -275,9 +275,11 @@ Fixpoint lines_pure (n : nat) (e : encoding) (b : bytes) : io (list str) :=
         end)
   end.
 
+(* what from_bytes makes of the bytes: a stream shorter than read_bom's minimum
+   chunk is dropped whole (part of D4); otherwise BOM, then lines *)
 Definition decode_stream (b : bytes) : io (list str) :=
-  let '(e, c) := from_bom b in
-  lines_pure (S (length b)) e (skipn c b).
+  if (length b <? min_bom_len)%nat then IoDone []
+  else let '(e, c) := from_bom b in lines_pure (S (length b)) e (skipn c b).
 
 (* ---------- the writer (dual) and std's Write::write_all ---------- *)
 
